@@ -80,3 +80,15 @@ PROPS["C16"] = {
     "level_text": "Buffer half: kernel-checked theorem C16_buffer over the Emit model (emit_init/emit_c/emit_print of debug.c) for every n (incl. 0 and negative) and every NUL-free character stream: writes only inside buf[0..n-1], NUL-terminated for n>=1, ends in '...' when truncated and n>=4, untruncated output is exact; tied by a differential run of the real debug.c (canaries around the buffer, all n in -1..80, states with 0..3 queued waiters). Observer half: a debug caller's writes to the mutex word are spinlock-only transitions in the MuX protocol, whose exclusion theorem (C01) quantifies over programs containing them; tied by lockstep replay of debug-family scenarios plus exclusion/progress oracles.",
     "level_note": "Observer half is proved for the lock bits and the spinlock bit (MuX); that a debug caller leaves the hint bits (wake-up bookkeeping) untouched is checked by lockstep (the acceptor rejects any debug write that is not a spinlock-only change) and by the progress oracle, not yet by a theorem over the hint-bit semantics. emit_print's varargs formatting is modelled for %s and %i only (all that debug.c uses).",
 }
+
+PROPS["C17"] = {
+    "imports": ["NsyncVerif.Props.C17"],
+    "theorems": ["Dll." + t for t in ["C17_remove", "C17_remove_ring", "C17_splice", "C17_splice_rot", "C17_splice_list", "C17_make_first",
+                 "C17_make_first_singleton", "C17_make_first_null", "C17_make_last", "C17_make_last_singleton", "C17_make_last_null",
+                 "C17_traversals", "C17_step", "C17_sequences", "C17_sequences_from_empty", "C17_sequences_observe", "C17_no_null_deref"]],
+    "layers": ["dll"], "engine": "pure-differential",
+    "pure": [{"name": "dll_gen", "dir": "dll", "flavours": ["_c", "_cpp"], "build_args": {"_c": "c", "_cpp": "c++"}, "layer": "dll"}],
+    "oracles": {"mismatch"},
+    "level_text": "Kernel-checked theorems over the Dll model (dll.c statement by statement on a heap of next/prev functions; unbounded lists, elements and operation sequences): remove / splice / make_first / make_last implement erase / insertion on the abstract sequences with frame conditions, traversals enumerate the sequence forwards and backwards, a removed element is a self-linked singleton, emptiness is exact, no NULL dereference under the contract, and by induction over the operation list the concrete heap represents the abstract state after every prefix (C17_sequences). Tied to the code by a differential run of the real dll.c (C and C++ builds): exhaustive sequences to a length bound plus random longer ones.",
+    "level_note": "Contract hypotheses: inserted element is a ring disjoint from the list; removed element is in the list; splice arguments in different rings (what nsync's callers guarantee). Tie is the differential run (exhaustive to the stated bound + random), not a translation.",
+}
